@@ -1,0 +1,9 @@
+//go:build !verif
+
+package logqlmetric
+
+import "github.com/tdakkota/docker-logql/internal/lokiapi"
+
+func verifOrderSamples(s []Sample) []Sample { return s }
+
+func verifOrderMatrix(m lokiapi.Matrix) lokiapi.Matrix { return m }
